@@ -46,6 +46,7 @@ Judge(e) ==
          [] e.op = "RAddrAccess" -> JRAddrAccess(e)
          [] e.op \in {"ByteSweep", "RandomSweep", "CodeSweep"} -> JSweepOutcome(e)
          [] e.op = "MappingBodies" -> JMappingBodies(e)
+         [] e.op = "ApiSweep" -> JApiSweep(e)
          [] e.op = "SignedProbe" -> JSignedProbe(e)
          [] e.op = "SignBuild" -> JSignBuild(e)
          [] e.op = "EncDec" -> JEncDec(e)
